@@ -129,24 +129,31 @@ def wit_window_fast_path_offset(total: int, frm: int, to: int, start: int, stop:
 
 
 def window_reject_check(kind, total, frm, to, to_none):
-    """Windows that select no row, or start beyond the data, are refused at construction."""
+    """A window is usable iff 0 <= from < to <= rows (to omitted = rows).  Any other window must be refused - when the
+    wrapper is built or at the latest when its rows are loaded - never answered with rows that are not in the data."""
     nps.reset()
     (src, mapping, W) = make_source(kind, total, 2, 7, '<', '<', None)
-    try:
-        W(src, mapping, from_idx=frm, to_idx=None if to_none else to)
-    except ValueError:
-        ok = False
-    else:
-        ok = True
     eff_to = total if to_none else to
-    want = frm < total and eff_to - frm >= 1
-    return 0 if ok == want else 1
+    want = 0 <= frm < eff_to <= total
+    try:
+        w = W(src, mapping, from_idx=frm, to_idx=None if to_none else to)
+    except ValueError:
+        return 0 if not want else 1
+    try:
+        chunk = w.load_chunk(0, None)
+    except ValueError:
+        return 0 if not want else 2
+    if not want:
+        return 3                           # rows were produced for a window that is not inside the data
+    if not chunk_rows_ok(chunk, eff_to - frm, frm):
+        return 4
+    return 0
 
 
 def ob_window_reject(kind: int, total: int, frm: int, to: int, to_none: bool) -> int:
     """
     pre: 0 <= kind < KINDS
-    pre: 1 <= total <= TOTAL_MAX and 0 <= frm <= TOTAL_MAX + 5 and 0 <= to <= total
+    pre: 1 <= total <= TOTAL_MAX and -5 <= frm <= TOTAL_MAX + 5 and -5 <= to <= TOTAL_MAX + 5
     post: _ == 0
     """
     return window_reject_check(kind, total, frm, to, to_none)
@@ -155,7 +162,7 @@ def ob_window_reject(kind: int, total: int, frm: int, to: int, to_none: bool) ->
 def reach_window_reject(kind: int, total: int, frm: int, to: int, to_none: bool) -> int:
     """
     pre: 0 <= kind < KINDS
-    pre: 1 <= total <= TOTAL_MAX and 0 <= frm <= TOTAL_MAX + 5 and 0 <= to <= total
+    pre: 1 <= total <= TOTAL_MAX and -5 <= frm <= TOTAL_MAX + 5 and -5 <= to <= TOTAL_MAX + 5
     post: _ != 0
     """
     return window_reject_check(kind, total, frm, to, to_none)
